@@ -156,20 +156,24 @@ class Tester:
         key.update(extra)
         self.viol.append((key, "Signature(%s): %s" % (tree_repr(self.ms), text)))
 
+    def report_exc(self, op, e, subject="", clause="unexpected_exception"):
+        """an exception other than the specified one is a finding; the FlippedInterface TypeError gets its own key"""
+        if isinstance(e, TypeError) and str(e).startswith(KNOWN_MSG):
+            self.defect = True
+            self.stats["defect_hits"] += 1
+            self.viol.append(({"clause": DEFECT_CLAUSE, "error": "TypeError", "op": op},
+                              "Signature(%s)%s: %s raises TypeError: %s" % (
+                                  tree_repr(self.ms), subject, op, str(e)[:160])))
+        else:
+            self.bad(clause, op, "%s%s raises %s: %s" % (op, subject, type(e).__name__, str(e)[:300]),
+                     error=type(e).__name__)
+
     def guarded(self, op, fn, subject=""):
-        """run fn(); exceptions are findings: the known TypeError gets its own key"""
+        """run fn(); returns (completed, result)"""
         try:
             return True, fn()
         except Exception as e:  # noqa: BLE001
-            if isinstance(e, TypeError) and str(e).startswith(KNOWN_MSG):
-                self.defect = True
-                self.stats["defect_hits"] += 1
-                self.viol.append(({"clause": DEFECT_CLAUSE, "error": "TypeError", "op": op},
-                                  "Signature(%s)%s: %s raises TypeError: %s" % (
-                                      tree_repr(self.ms), subject, op, str(e)[:160])))
-            else:
-                self.bad("unexpected_exception", op, "%s%s raises %s: %s" % (op, subject, type(e).__name__, str(e)[:300]),
-                         error=type(e).__name__)
+            self.report_exc(op, e, subject)
             return False, None
 
     def eq(self, clause, op, got, want, what):
@@ -269,9 +273,13 @@ class Tester:
                 self.bad("flatten", "flatten", "%s: value at %r is %r (expected the signal created for that leaf: shape/init %r)"
                          % (what, path, value, w[2:]))
                 return
-            if same_as is not None and traverse(same_as, path) is not value:
-                self.bad("flipped_access", "flatten", "%s: leaf %r is not the signal of the unflipped object" % (what, path))
-                return
+            if same_as is not None:
+                ok, other = self.guarded("getattr", lambda: traverse(same_as, path), " path %r of the unflipped object" % (path,))
+                if not ok:
+                    return
+                if other is not value:
+                    self.bad("flipped_access", "flatten", "%s: leaf %r is not the signal of the unflipped object" % (what, path))
+                    return
 
     def check_nodes(self, k, obj, nodes, what):
         wiring = _lib()
@@ -300,7 +308,7 @@ class Tester:
         def same(a, b):
             if isinstance(a, (list, tuple)):
                 return isinstance(b, (list, tuple)) and len(a) == len(b) and all(same(p, q) for p, q in zip(a, b))
-            return a is b
+            return a is b or (type(a) is type(b) is wiring.FlippedInterface and a == b)
         for m in self.ms:
             if m["kind"] != "sig":
                 continue
@@ -331,6 +339,8 @@ class Tester:
         from amaranth.hdl import Module, Signal, Const
         wiring = _lib()
         self.stats["connect_calls"] += 1
+        if not isinstance(out, dict):
+            out = dict(out)          # a record inside a TLA+ set is parsed into a tuple of (field, value) pairs
         m = Module()
         try:
             wiring.connect(m, *[args[i] for i in perm])
@@ -338,7 +348,7 @@ class Tester:
         except wiring.ConnectionError as e:
             err = e
         except Exception as e:  # noqa: BLE001
-            ok, _ = self.guarded("connect", lambda: (_ for _ in ()).throw(e), " " + what)
+            self.report_exc("connect", e, " " + what, clause="unexpected_exception" if clause == "connect" else clause)
             return
         want_err = bool(out["errs"])
         if out["unspec"]:
@@ -346,14 +356,12 @@ class Tester:
             if err is not None:
                 return
         elif (err is not None) != want_err:
-            if clause == "connect_dimension_mismatch" or (want_err and clause == "connect_corruption"):
+            if want_err:
                 self.bad(clause, "connect", "%s: connect returned normally, the specification requires ConnectionError %s"
-                         % (what, sorted(out["errs"])), error="none")
-            elif want_err:
-                self.bad(clause, "connect", "%s: connect returned normally, the specification requires ConnectionError %s"
-                         % (what, sorted(out["errs"])))
+                         % (what, sorted(out["errs"])), error="no_ConnectionError")
             else:
-                self.bad(clause, "connect", "%s: ConnectionError(%s), the specification has no error" % (what, str(err)[:200]))
+                self.bad(clause, "connect", "%s: ConnectionError(%s), the specification has no error" % (what, str(err)[:200]),
+                         error="spurious_ConnectionError")
             return
         if err is not None:
             kind = classify(str(err))
@@ -395,56 +403,47 @@ class Tester:
         if not self.eq(clause, "connect", sorted(got, key=repr), sorted(edges, key=repr), what + ": (driver argument, driven argument, path) edges"):
             return
         if sim:
-            self.simulate(m, sigs, edges, consts or {}, what, clause)
+            self.simulate(m, sigs, edges, what, clause)
 
-    def simulate(self, m, sigs, edges, consts, what, clause):
-        """drive every non-constant leaf that is not expected to be driven, one at a time, with a value different
-        from its initial value; after each step every driven input must equal its driver, everything else keeps
-        its value; a DriverConflict on ctx.set means connect drives something it must not drive"""
+    def simulate(self, m, sigs, edges, what, clause):
+        """pysim: every leaf that connect must not drive (outputs, unconnected inputs) is set, one at a time, to a value
+        different from its current one; after each step every driven input must equal its driver (as read through its
+        own shape) and every other leaf keeps its value.  A DriverConflict on ctx.set means connect drives a leaf it
+        must not drive.  Constants cannot be set; inputs driven by a constant must read its value."""
         from amaranth.hdl import Signal, DriverConflict
         from amaranth.sim import Simulator
         self.stats["sims"] += 1
         driven = {(j, p): (i, p) for i, j, p in edges}
-        leaves = [(i, p) for i, d in enumerate(sigs) for p in d]
+        leaves = [(i, p) for i, d in enumerate(sigs) for p in sorted(d, key=repr)]
         problems = []
 
         async def tb(ctx):
-            def val(key):
-                v = sigs[key[0]][key[1]]
-                return ctx.get(v) if isinstance(v, Signal) else consts[key].value
-            model = {k: val(k) for k in leaves}
-            for k in leaves:                       # initial values
-                v = sigs[k[0]][k[1]]
-                if isinstance(v, Signal) and k not in driven and model[k] != v.init:
-                    problems.append("leaf %r starts at %r, not at its initial value %r" % (k, model[k], v.init))
-            for k, src in driven.items():
-                if model[k] != model[src]:
-                    problems.append("input %r = %r does not follow %r = %r before any stimulus" % (k, model[k], src, model[src]))
-            for k in leaves:
-                v = sigs[k[0]][k[1]]
-                if k in driven or not isinstance(v, Signal):
-                    continue
-                new = model[k] ^ 1 if not v.shape().signed else (-1 - model[k] if model[k] in (0, -1) else -model[k])
-                try:
-                    ctx.set(v, new)
-                except DriverConflict:
-                    problems.append("leaf %r, which connect must not drive, is driven (DriverConflict on set)" % (k,))
-                    continue
-                model[k] = ctx.get(v)
-                for d, src in driven.items():
-                    if src == k:
-                        model[d] = None            # must follow
+            def obj(k):
+                return sigs[k[0]][k[1]]
+
+            def read(k):
+                return ctx.get(obj(k)) if isinstance(obj(k), Signal) else obj(k).value
+            model = {k: (obj(k).init if isinstance(obj(k), Signal) else obj(k).value) for k in leaves if k not in driven}
+
+            def check(when):
                 for q in leaves:
-                    got = val(q)
-                    want = model[driven[q]] if q in driven else model[q]
-                    if model.get(q) is None:
-                        want = cast_like(sigs[q[0]][q[1]], model[driven[q]])
-                        model[q] = want
-                    elif q in driven:
-                        want = model[q]
+                    want = cast_like(obj(q), model[driven[q]]) if q in driven else model[q]
+                    got = read(q)
                     if got != want:
-                        problems.append("after setting %r to %r: leaf %r reads %r, expected %r" % (k, new, q, got, want))
-                        model[q] = got
+                        problems.append("%s: leaf %r reads %r, expected %r%s" % (
+                            when, q, got, want, " (= its driver %r)" % (driven[q],) if q in driven else ""))
+            check("before any stimulus")
+            for k in leaves:
+                if k in driven or not isinstance(obj(k), Signal) or len(problems) > 6:
+                    continue
+                new = cast_like(obj(k), model[k] + 1)
+                try:
+                    ctx.set(obj(k), new)
+                except DriverConflict:
+                    problems.append("leaf %r, which connect must not drive, is driven (DriverConflict on ctx.set)" % (k,))
+                    continue
+                model[k] = new
+                check("after setting %r to %r" % (k, new))
         sim = Simulator(m)
         sim.add_testbench(tb)
         with warnings.catch_warnings():
@@ -763,15 +762,15 @@ def run(ctx):
             args=("-deadlock",), expect_violation="PermInvariant")
 
     # ---------------- binding demonstration: a corrupted expectation must be rejected --------------
-    demo_ms = ({"name": "p", "flow": "Out", "dims": (2,), "kind": "sig", "w": 0, "s": False, "init": 0,
-                "sub": {"fl": False, "ms": ({"name": "a", "flow": "In", "dims": (), "kind": "port", "w": 2, "s": True,
+    demo_ms = ({"name": "p", "flow": "In", "dims": (), "kind": "sig", "w": 0, "s": False, "init": 0,
+                "sub": {"fl": False, "ms": ({"name": "a", "flow": "In", "dims": (2,), "kind": "port", "w": 2, "s": True,
                                              "init": 1, "sub": {"fl": False, "ms": ()}},)}},)
     demo = _demo_expectation(ctx, demo_ms)
     good = test_state(demo_ms, demo, {"sim_all": True, "metadata": True})
     if good.viol:
         raise MachineryError("binding demo: the unmodified expectation is rejected: %r" % (good.viol[:2],))
     rejected = []
-    for what, mut in (("flatten flow", lambda e: e.__setitem__("flatS", (tuple(e["flatS"][0][:1]) + ("Out",) + tuple(e["flatS"][0][2:]),) + tuple(e["flatS"][1:]))),
+    for what, mut in (("flatten flow", lambda e: e.__setitem__("flatS", (tuple(e["flatS"][0][:1]) + ("In",) + tuple(e["flatS"][0][2:]),) + tuple(e["flatS"][1:]))),
                       ("connect edge direction", lambda e: e["conn"].__setitem__(0, {**e["conn"][0], "edges": frozenset(
                           (x[1], x[0], x[2]) for x in e["conn"][0]["edges"])})),
                       ("connect error expected", lambda e: e["conn"].__setitem__(0, {**e["conn"][0], "errs": frozenset(["width_mismatch"]), "edges": frozenset()}))):
